@@ -630,6 +630,7 @@ def run(ctx: RuleContext, p: Program) -> None:
     ctx.try_rule(rule_bc_spaced, p, g, 'BC-SPACED')
     ctx.try_rule(rule_bc_rt, p, g, 'BC-RT')
     ctx.try_rule(rule_tok_rt, p, g, 'TOK-RT')
+    ctx.try_rule(rule_lex_accept, p, g, 'LEX-ACCEPT')
     from . import bcline
     ctx.try_rule(bcline.rule_bc_line, p, 'BC-LINE')
     ctx.try_rule(rule_fmt_lang, p, g, 'FMT-LANG')
@@ -1125,9 +1126,17 @@ _TOK_RT_VALUES: list[tuple[str, str]] = [
     ('unicode line boundary', 'a\x1eb'), ('unicode line boundary', 'a\x85b'), ('unicode line boundary', 'a b'), ('unicode line boundary', 'a b'),
     ('unicode line boundary', 'a '), ('non-ascii', '\xe9t\xe9'), ('non-ascii', '中文'), ('non-ascii', 'x\xa0y'), ('non-ascii', '　x'),
     ('leading blank', '    '), ('leading blank', ' '), ('tab', '\t'), ('leading blank', ' \t'),         # indentations
+    ('not in a Unicode normal form', 'Expenses:Cafe\u0301'), ('not in a Unicode normal form', 'e\u0301te\u0301'), ('not in a Unicode normal form', 'Assets:\u212bngstrom'),
+    ('not in a Unicode normal form', '\ufb01n'), ('not in a Unicode normal form', 'Assets:\u1112\u1161\u11ab'),
     ('case', 'MiXed'), ('case', 'lower'), ('case', 'UPPER'), ('digits', '0123'), ('digits', 'a1'),
 ]
 
+
+# further texts used on the lexeme side only
+_TOK_RT_LEXEMES: list[tuple[str, str]] = [
+    ('non-ascii', '\u8d44\u4ea7:\u73b0\u91d1'), ('non-ascii', 'Assets:\u94f6\u884c:\u50a8\u84c4'), ('non-ascii', '\xc9xpenses:\xe9picerie'), ('digits', 'Assets:401k'),
+    ('plain', '#tag'), ('plain', '^link'), ('plain', 'key:'), ('plain', ';c'), ('plain', '; c'), ('plain', ';'), ('plain', 'Assets:Foo:Bar'),
+]
 
 # texts of the pool that are lexemes of a terminal without being values of the class (one line of reason each)
 _TOK_RT_NOT_A_VALUE = {
@@ -1149,10 +1158,13 @@ def rule_tok_rt(ctx: RuleContext, p: Program, g: rx.Grammar, rid: str, only: Opt
     for c in p.registered('token_model'):
         fmt = c.lookup('_format_value')
         prs = c.lookup('_parse_value')
-        if not isinstance(fmt, FuncInfo) or not isinstance(prs, FuncInfo) or len(fmt.params) != 2 or len(prs.params) != 2:
+        if not isinstance(fmt, FuncInfo) or not isinstance(prs, FuncInfo):
+            continue
+        # (cls, value) for a classmethod, (value) for a static method
+        if len(fmt.params) != (1 if fmt.kind == 'staticmethod' else 2) or len(prs.params) != (1 if prs.kind == 'staticmethod' else 2):
             continue
         own_pair = isinstance(c.attrs.get('_format_value'), FuncInfo) and isinstance(c.attrs.get('_parse_value'), FuncInfo)
-        ann = norm(fmt.node.args.args[1].annotation) if fmt.node.args.args[1].annotation else ''
+        ann = norm(fmt.node.args.args[-1].annotation) if fmt.node.args.args[-1].annotation else ''
         if ann != 'str' or c.name in ('EscapedString', 'BlockComment') or (only is not None and c.name not in only):
             continue
         rule = p.class_const(c, 'RULE')
@@ -1198,7 +1210,7 @@ def rule_tok_rt(ctx: RuleContext, p: Program, g: rx.Grammar, rid: str, only: Opt
                 return super().expr(e, env)
 
         def run(fn: FuncInfo, arg: str) -> Any:
-            return Interp(ts, [], module=fn.module).call_function(fn, [clsobj, arg], {})
+            return Interp(ts, [], module=fn.module).call_function(fn, [arg] if fn.kind == 'staticmethod' else [clsobj, arg], {})
 
         for cat, v in _TOK_RT_VALUES:
             if (c.name, v) in _TOK_RT_NOT_A_VALUE:
@@ -1208,7 +1220,7 @@ def rule_tok_rt(ctx: RuleContext, p: Program, g: rx.Grammar, rid: str, only: Opt
             except possem.Raised:
                 continue                          # a refused value is outside the domain
             if not isinstance(raw, str):
-                bad.setdefault(cat, f'_format_value({v!r}) returns {raw!r}, not a text')
+                bad.setdefault(cat, f'_format_value({v!a}) returns {raw!a}, not a text')
                 continue
             if not is_lexeme(raw):
                 continue                          # not a lexeme of the terminal: v is outside the domain of this token type (TERM-DOMAIN / FMT-LANG decide the reach)
@@ -1216,19 +1228,44 @@ def rule_tok_rt(ctx: RuleContext, p: Program, g: rx.Grammar, rid: str, only: Opt
             try:
                 back = run(prs, raw)
             except possem.Raised as ex:
-                bad.setdefault(cat, f'from_value({v!r}) writes {raw!r}, a {tname} lexeme, and _parse_value raises {ex} on it')
+                bad.setdefault(cat, f'from_value({v!a}) writes {raw!a}, a {tname} lexeme, and _parse_value raises {ex} on it')
                 continue
             if back != v or type(back) is not str:
-                bad.setdefault(cat, f'from_value({v!r}) writes {raw!r}, which is a {tname} lexeme and reads back as {back!r}: the value assigned is not the '
+                bad.setdefault(cat, f'from_value({v!a}) writes {raw!a}, which is a {tname} lexeme and reads back as {back!a}: the value assigned is not the '
                                     f'value the document holds')
                 continue
             try:
                 again = run(fmt, back)
             except possem.Raised as ex:
-                bad.setdefault(cat, f'_format_value raises {ex} on {back!r}, the value just read from {raw!r}')
+                bad.setdefault(cat, f'_format_value raises {ex} on {back!a}, the value just read from {raw!a}')
                 continue
             if again != raw:
-                bad.setdefault(cat, f'{raw!r} reads as {back!r}, which is written as {again!r}')
+                bad.setdefault(cat, f'{raw!a} reads as {back!a}, which is written as {again!a}')
+        # the lexeme side: a text of the pool that IS a lexeme of the terminal reads as some value; that value is in the domain by
+        # construction (the lexer produces it), so the writer accepts it and the pair round-trips on it
+        for cat, r in _TOK_RT_VALUES + _TOK_RT_LEXEMES:
+            if not is_lexeme(r) or (c.name, r) in _TOK_RT_NOT_A_VALUE:
+                continue
+            try:
+                v = run(prs, r)
+            except possem.Raised as ex:
+                bad.setdefault(cat, f'the {tname} lexeme {r!a} is refused by _parse_value ({ex})')
+                continue
+            if not isinstance(v, str):
+                continue
+            try:
+                raw2 = run(fmt, v)
+            except possem.Raised as ex:
+                bad.setdefault(cat, f'{r!a} is a {tname} lexeme and reads as the value {v!a}, which _format_value refuses ({ex}): a value the lexer '
+                                    f'produces cannot be assigned')
+                continue
+            n_here += 1
+            if isinstance(raw2, str) and is_lexeme(raw2):
+                try:
+                    if run(prs, raw2) != v:
+                        bad.setdefault(cat, f'{r!a} reads as {v!a}, which is written as {raw2!a} and read back as {run(prs, raw2)!a}')
+                except possem.Raised as ex:
+                    bad.setdefault(cat, f'{r!a} reads as {v!a}, which is written as {raw2!a}; that text is refused ({ex})')
         n_pairs += n_here
         n_all += 1
         if n_here < 3 and own_pair:
@@ -1248,3 +1285,63 @@ def rule_tok_rt(ctx: RuleContext, p: Program, g: rx.Grammar, rid: str, only: Opt
         raise AnalysisError(f'TOK-RT: only {n_all} text-valued token classes found (10 confirmed by hand)')
     ctx.stats.setdefault('tok_rt', {})['classes'] = n_all
     ctx.stats['tok_rt']['pairs'] = n_pairs
+
+
+# ----------------------------------------------------------------------------- LEX-ACCEPT (round 9)
+def rule_lex_accept(ctx: RuleContext, p: Program, g: rx.Grammar, rid: str) -> None:
+    """every NUMBER lexeme is accepted by Number._parse_value and means the decimal its digits spell"""
+    import decimal
+    import itertools
+    from . import possem
+    from .tokenstore import TS
+    ctx.rule(rid, 'Number._parse_value, interpreted on NUMBER lexemes assembled from integer parts (plain, comma-grouped, leading zeros) and '
+                  'fraction parts (none, a bare dot, digits, trailing zeros) that the terminal of the grammar matches: every lexeme is accepted (a reader '
+                  'stricter than the lexer makes a ledger unparseable) and its value is the decimal the digits spell with the commas taken out, '
+                  'exponent included')
+    c = p.cls('Number', 'models.number')
+    prs = c.lookup('_parse_value')
+    if not isinstance(prs, FuncInfo):
+        raise AnalysisError('LEX-ACCEPT: Number._parse_value vanished')
+    rule = p.class_const(c, 'RULE')
+    tname = rule.value if isinstance(rule, ast.Constant) else None
+    if tname not in g.terminals:
+        raise AnalysisError('LEX-ACCEPT: Number.RULE is not a terminal of the grammar')
+    term = re.compile(g.terminals[tname].pattern.to_regexp())
+    ts = TS(p)
+    clsobj = possem.Obj('NumberClass', {}, 'cls')
+
+    class Interp(possem.PosInterp):
+        tag = 'LEX-ACCEPT'
+
+        def expr(self, e: Any, env: dict) -> Any:                 # type: ignore[override]
+            if isinstance(e, ast.Call) and norm(e.func) in ('decimal.Decimal', 'Decimal') and len(e.args) == 1 and not e.keywords:
+                v = self.expr(e.args[0], env)
+                if not isinstance(v, (str, int, decimal.Decimal)) or isinstance(v, bool):
+                    raise self.err(e, 'Decimal() of an abstract value')
+                try:
+                    return decimal.Decimal(v)
+                except decimal.InvalidOperation:
+                    raise possem.Raised(f'decimal.InvalidOperation: Decimal({v!r})')
+            if isinstance(e, ast.Attribute) and isinstance(e.value, ast.Name) and env.get(e.value.id) is clsobj:
+                k_ = p.class_const(c, e.attr)
+                if k_ is not None:
+                    return self.expr(k_, {})
+            return super().expr(e, env)
+
+    ints = ['0', '7', '12', '123', '1234', '12345678', '007', '1,234', '12,345', '123,456', '1,234,567', '12,345,678', '0,000', '001,000']
+    fracs = ['', '.', '.5', '.50', '.000', '.123456789']
+    lexemes = [i + f for i, f in itertools.product(ints, fracs) if term.fullmatch(i + f)]
+    if len(lexemes) < 60:
+        raise AnalysisError(f'LEX-ACCEPT: only {len(lexemes)} of the sample texts are {tname} lexemes')
+    problem = None
+    for lx in lexemes:
+        try:
+            got = Interp(ts, [], module=prs.module).call_function(prs, [clsobj, lx], {})
+        except possem.Raised as ex:
+            problem = problem or f'the {tname} lexeme {lx!r} is refused ({ex}): a ledger that contains it no longer parses, and raw_text = {lx!r} raises'
+            continue
+        want = decimal.Decimal(lx.replace(',', ''))
+        if not isinstance(got, decimal.Decimal) or got != want or got.as_tuple() != want.as_tuple():
+            problem = problem or f'the {tname} lexeme {lx!r} reads as {got!r}, its digits spell {want!r}'
+    ctx.check(problem is None, rid, 'models.number:Number._parse_value', 'every NUMBER lexeme is accepted and means its digits', problem or '', prs.where,
+              note=f'{len(lexemes)} lexemes')
